@@ -44,7 +44,10 @@ class C36(Prop):
                 "work": draw(st.sampled_from([0, 0, 1, 3])),
                 "workers": draw(st.integers(1, 2)),
                 # "deadline" = the event is sent at the very instant the idle timeout expires (races the release timer)
-                "gaps": [draw(st.sampled_from([0.5, 1.5, 3, 4, 7, 12, 25, 40, "deadline", "deadline"])) for _ in range(total)],
+                # "before_deadline" = sent half a store latency before the deadline: its delivery is still being recorded when the timer fires
+                "gaps": [draw(st.sampled_from([0.5, 1.5, 3, 4, 7, 12, 25, 40, "deadline", "deadline", "before_deadline"])) for _ in range(total)],
+                # virtual seconds every store call takes (I/O latency), 0 = none
+                "latency": draw(st.sampled_from([0, 0, 0.1, 0.2, {"read": 0.02, "write": 0.3}, {"read": 0.02, "write": 0.3}])),
                 # a store with real I/O suspends inside its calls: generated numbers of event-loop yields before each store call
                 "yields": draw(st.sampled_from([[], [], [1], [0, 2], [2, 0, 1], [1, 3], [3, 1, 0, 2]])),
                 "idle_timeout": draw(st.sampled_from([1, 2, 5, 10, None])),
@@ -67,22 +70,24 @@ class C36(Prop):
             tmp = srv.tmp_root() if case["store"] == "sqlite" else None
             try:
                 store = srv.make_store(case["store"], tmp)
-                if case.get("yields"):
-                    store = srv.StoreProxy(store, yields=case["yields"])
+                if case.get("yields") or case.get("latency"):
+                    store = srv.StoreProxy(store, yields=case.get("yields"), latency=case.get("latency", 0))
                 life = await srv.start_life(store, srv.reply_factory(case, log), idle_timeout=float(I) if I is not None else 1e9)
                 hd = await life.server._service.start_workflow(life.wf, "h1", start_event=ge.GStart())
                 cur = {"life": life, "store": store, "handler_id": "h1"}
                 mon = asyncio.create_task(srv.watch_release(cur, hd.run_id, obs, POLL))
                 idle_from = VClock.t  # the start step finishes at once: the run idles from t=0
                 for n, gap in enumerate(case["gaps"]):
-                    if gap == "deadline":
-                        gap = max(0.0, idle_from + float(I) - VClock.t) if I is not None else 1.0
+                    if gap in ("deadline", "before_deadline"):
+                        lat = case.get("latency", 0)
+                        early = ((lat.get("write", 0) if isinstance(lat, dict) else lat) / 2.0) if gap == "before_deadline" else 0.0
+                        gap = max(0.0, idle_from + float(I) - early - VClock.t) if I is not None else 1.0
                         obs["deadline_sends"] = obs.get("deadline_sends", 0) + 1
                     await asyncio.sleep(gap)
                     t_send = VClock.t
                     try:
                         await life.server._service.send_event("h1", ge.Reply(n=n))
-                        obs["sends"].append({"n": n, "t": t_send, "idle_from": idle_from, "gap": gap, "deadline": case["gaps"][n] == "deadline"})
+                        obs["sends"].append({"n": n, "t": t_send, "idle_from": idle_from, "gap": gap, "deadline": case["gaps"][n] in ("deadline", "before_deadline")})
                     except Exception as e:  # noqa: BLE001
                         obs["send_errors"].append(repr(e)[:160])
                     # wait until this reply was processed (or give up at a horizon), then the next idle period starts
@@ -110,27 +115,31 @@ class C36(Prop):
 
         rel = obs["released"]
         n_rel_ok = 0
+        # with store latency L every tick of the run and the release itself spend several store calls of L virtual seconds each: the
+        # instants the zero-latency oracle is exact about move by a bounded number of calls (only for those cases; L=0 keeps it exact)
+        lat_ = case.get("latency", 0) or 0
+        slack = 12.0 * float(max(lat_.values()) if isinstance(lat_, dict) else lat_)
         prev_deadline = False
         for s in obs["sends"]:
             lo, hi = s["idle_from"], s["t"]
             # (a release racing a send at the deadline is observed up to one polling period later: it belongs to that gap, not the next)
             inside = [x for x in rel if lo + (POLL if prev_deadline else 0.0) - 1e-6 < x["t"] <= hi + POLL + 1e-6]
             prev_deadline = s.get("deadline", False)
-            if I is not None and s["gap"] > I + 0.75:
+            if I is not None and s["gap"] > I + 0.75 + slack:
                 if len(inside) != 1:
                     r.v("idle_run_not_released_once_in_gap", releases=len(inside), gap=s["gap"], idle_timeout=I)
                 else:
                     t_rel = inside[0]["t"]
-                    if not (lo + I - 1e-6 <= t_rel <= lo + I + 2 * POLL + 1e-6):
+                    if not (lo + I - 1e-6 <= t_rel <= lo + I + 2 * POLL + slack + 1e-6):
                         r.v("released_at_wrong_time", after_idle=round(t_rel - lo, 3), idle_timeout=I)
                     if not inside[0]["idle_since_set"]:
                         r.v("released_handler_not_marked_idle")
-                    reloads = [t for t in obs["reloaded"] if s["t"] - 1e-6 <= t <= s["t"] + 2 * POLL + 1e-6]
+                    reloads = [t for t in obs["reloaded"] if s["t"] - 1e-6 <= t <= s["t"] + 2 * POLL + slack + 1e-6]
                     if not reloads:
                         r.v("send_after_release_did_not_reload_run", gap=s["gap"])
                     else:
                         n_rel_ok += 1
-            elif I is None or s["gap"] < I - 0.75:
+            elif I is None or s["gap"] < I - 0.75 - slack:
                 if inside:
                     r.v("released_before_idle_timeout", gap=s["gap"], idle_timeout=I)
         if obs["send_errors"]:
@@ -155,7 +164,9 @@ class C36(Prop):
         if len(rel) >= 2:
             r.classes.append("released_twice_or_more")
         if obs.get("deadline_sends") and I is not None:
-            r.classes.append("send_at_release_deadline" + ("_suspending_store" if case.get("yields") else ""))
+            r.classes.append("send_at_release_deadline" + ("_suspending_store" if case.get("yields") or case.get("latency") else ""))
+        if case.get("latency"):
+            r.classes.append("store_latency" + ("_slow_writes" if isinstance(case["latency"], dict) else ""))
         r.classes.append("store_" + case["store"])
         r.nontrivial = n_rel_ok > 0
         r.sample = {"case": case, "released": [x["t"] for x in rel][:4], "reloaded": obs["reloaded"][:4], "status": row.get("status")}
